@@ -37,6 +37,7 @@ OUTCOMES = {
     'n_event_report': ['ok', 'EHE'],
     'get_store': [0x0000, 0xB000, 0xA700, 'EHE'],
     'get_store2': [0x0000, 0xB000],
+    'store_plain': [0x0000, 0xB000, 0xA700],      # the handler answers with a plain integer status code
     'user_n_action': ['x'],      # an application-defined MessageDispatcherSCP service next to StorageCommitment
     'user_n_event': ['x'],
 }
@@ -89,6 +90,7 @@ def _ae_class():
         outcome = None
         sublog = None
         nested = None
+        plain = False
 
         def _st(self):
             if self.outcome == 'EHE':
@@ -99,6 +101,8 @@ def _ae_class():
             return self._st()
 
         def on_receive_store(self, context, ds):
+            if self.plain:
+                return int(self.outcome)
             return self._st()
 
         def on_receive_find(self, context, ds):
@@ -231,6 +235,9 @@ def _one(case, sae):
         sae = _make_sae()
     SvcAE = sae.vp_cls
     sae.outcome, sae.sublog = out, []
+    sae.plain = svc == 'store_plain'
+    if svc == 'store_plain':
+        svc = 'store'
     sop = {'echo': VERIF, 'store': CT, 'find': FIND, 'move': MOVE, 'n_action': COMMIT, 'n_event_report': COMMIT, 'get_store': CT,
            'get_store2': CT, 'user_n_action': PRIVATE, 'user_n_event': PRIVATE}[svc]
     MR = '1.2.840.10008.5.1.4.1.1.4'
@@ -407,7 +414,7 @@ def _one(case, sae):
                     or str(rep.sop_class_uid) != COMMIT:
                 viol.append((sig + ':report-content', 'N-EVENT-REPORT success=%r failed=%r event type %r transaction %r (expected %r) (%s)' % (
                     succ, fail, rep.event_type_id, str(rds.TransactionUID), exp, where)))
-    return {'viol': viol, 'case': case if viol else None, 'key': (svc, str(out), mid, pc, case['uidlen']),
+    return {'viol': viol, 'case': case if viol else None, 'key': (case['svc'], str(out), mid, pc, case['uidlen']),
             'count': {'responses_checked': len(parsed)},
             'sample': dict(case, responses=len(parsed)) if (mid, pc) == (256, 127) and svc in ('move', 'get_store') else None}
 
